@@ -25,7 +25,7 @@ Ltac Zify.zify_post_hook ::= Z.to_euclidean_division_equations.
 (* ================================================================== *)
 (** * Part 1 — the combinatorial lower bound                           *)
 (* ================================================================== *)
-Notation B := Z.b2z.
+Local Notation B := Z.b2z.
 Fixpoint zsum (g : nat -> Z) (n : nat) : Z := match n with O => 0 | S k => zsum g k + g k end.
 Fixpoint bsum (g : nat -> bool) (n : nat) : bool := match n with O => false | S k => xorb (bsum g k) (g k) end.
 Lemma zsum_ext g h n : (forall k, (k < n)%nat -> g k = h k) -> zsum g n = zsum h n.
@@ -632,3 +632,272 @@ Proof.
   intros s Hs. rewrite c6_code_eq in Hs. cbn [stabs] in Hs. apply in_app_iff in Hs.
   destruct Hs as [Hs|Hs]; apply in_map_iff in Hs; destruct Hs as (q & <- & Hq); now apply c6_stab_bop.
 Qed.
+
+(* ================================================================== *)
+(** * Part 3 — completeness of the generators                          *)
+(* ================================================================== *)
+Lemma c6_span_normalizer v : in_spanP (CN + CN) STABS v -> normalizer STABS v.
+Proof.
+  intros Hv s Hs. apply (span_commutes (CN + CN) STABS s); auto; [apply (c6_stabs_rowlen size m Hm Hsize)|].
+  intros s' Hs'. destruct (color_valid_all_conditions size ltac:(lia) ltac:(lia)) as (H & _). now apply H.
+Qed.
+Lemma c6_xat_single e s : length e = (CN + CN)%nat -> color_is_site s = true ->
+  bsp e (c6_sop size pZ [s]) = c6_xat e s.
+Proof. intros He Hs. rewrite c6_bsp_e_sopZ by (auto using c6_single_sites). cbn [rc_xsumb]. apply xorb_false_r. Qed.
+Lemma c6_zat_single e s : length e = (CN + CN)%nat -> color_is_site s = true ->
+  bsp e (c6_sop size pX [s]) = c6_zat e s.
+Proof. intros He Hs. rewrite c6_bsp_e_sopX by (auto using c6_single_sites). cbn [rc_xsumb]. apply xorb_false_r. Qed.
+
+(* an operator whose X and Z components vanish at every lattice site is the identity *)
+Lemma c6_components_zero e : length e = (CN + CN)%nat ->
+  (forall s, c6_xat e s = false) -> (forall s, c6_zat e s = false) -> e = zeros (CN + CN).
+Proof.
+  intros He HX HZ.
+  assert (L1 : length (skipn CN e) = CN) by (rewrite skipn_length; lia).
+  assert (L2 : length (firstn CN e) = CN) by (rewrite firstn_length; lia).
+  assert (G : forall u : bsf, length u = CN ->
+            (forall s, inb s && color_is_site s && nth (c6_fl s) u false = false) -> u = zeros CN).
+  { intros u Hu H. rewrite <- Hu. apply all_false_zeros_nth. intros i Hi.
+    destruct (c6_flatten_surjective_sec size m Hm Hsize i ltac:(lia)) as (s & Ss & Bs & Fs).
+    specialize (H s). rewrite Ss, Bs in H. unfold c6_fl in H. now rewrite Fs in H. }
+  rewrite <- (firstn_skipn CN e). rewrite (G _ L2 HX), (G _ L1 HZ). unfold zeros. now rewrite repeat_app.
+Qed.
+
+Theorem color_centralizer_sec e : length e = (CN + CN)%nat -> normalizer STABS e ->
+  bsp e (c6_bop pZ) = false -> bsp e (c6_bop pX) = false -> in_spanP (CN + CN) STABS e.
+Proof.
+  intros He Hn HZ HX.
+  destruct (tri_clean (CN + CN) (c6_stab_pairs size) (c6_stab_pairs_tri size m Hm Hsize) e He) as (cs & Hcs & Hall).
+  rewrite (c6_stab_pairs_fst size) in Hall. set (T := lincomb (CN + CN) cs STABS) in *.
+  assert (HT : in_spanP (CN + CN) STABS T).
+  { exists cs. split; [|reflexivity]. rewrite Hcs, <- (c6_stab_pairs_fst size). now rewrite map_length. }
+  assert (LT : length T = (CN + CN)%nat) by (apply lincomb_length, (c6_stabs_rowlen size m Hm Hsize)).
+  set (e' := xorv e T) in *.
+  assert (He' : length e' = (CN + CN)%nat) by (unfold e'; rewrite xorv_length; lia).
+  assert (Hn' : normalizer STABS e').
+  { intros s Hs. unfold e'. rewrite bsp_linear_l by lia. rewrite (Hn s Hs), (c6_span_normalizer T HT s Hs). reflexivity. }
+  assert (HZ' : oddE j (c6_fx e') = false).
+  { rewrite <- c6_bsp_bopZ by exact He'. unfold e'. rewrite bsp_linear_l by lia. now rewrite HZ, c6_span_bop. }
+  assert (HX' : oddE j (c6_fz e') = false).
+  { rewrite <- c6_bsp_bopX by exact He'. unfold e'. rewrite bsp_linear_l by lia. now rewrite HX, c6_span_bop. }
+  assert (PX : forall r c, 0 <= c <= r -> r <= 3 * m -> (r + c) mod 3 = 2 -> c6_fx e' (r - 1) (Z.max (c - 1) 0) = false).
+  { intros r c Hc Hr Hs. pose proof (c6_in_PI r c Hc Hr Hs) as Hq.
+    destruct (c6_PI_props size (r, c) Hq) as [Pq Bq]. destruct (c6_pivot_site size m Hsize (r, c) Pq Bq) as [Sp _].
+    specialize (Hall (c6_stab size pX (r, c), c6_dual size pZ (r, c))). cbn [snd] in Hall.
+    unfold c6_dual in Hall. rewrite c6_xat_single in Hall by auto. apply Hall.
+    unfold c6_stab_pairs. apply in_app_iff. left. unfold c6_pairs.
+    apply (in_map (fun q => (c6_stab size pX q, c6_dual size pZ q))). exact Hq. }
+  assert (PZ : forall r c, 0 <= c <= r -> r <= 3 * m -> (r + c) mod 3 = 2 -> c6_fz e' (r - 1) (Z.max (c - 1) 0) = false).
+  { intros r c Hc Hr Hs. pose proof (c6_in_PI r c Hc Hr Hs) as Hq.
+    destruct (c6_PI_props size (r, c) Hq) as [Pq Bq]. destruct (c6_pivot_site size m Hsize (r, c) Pq Bq) as [Sp _].
+    specialize (Hall (c6_stab size pZ (r, c), c6_dual size pX (r, c))). cbn [snd] in Hall.
+    unfold c6_dual in Hall. rewrite c6_zat_single in Hall by auto. apply Hall.
+    unfold c6_stab_pairs. apply in_app_iff. right. unfold c6_pairs.
+    apply (in_map (fun q => (c6_stab size pZ q, c6_dual size pX q))). exact Hq. }
+  assert (Hjm : m = Z.of_nat j) by (unfold j; lia).
+  assert (VX : forall s, c6_xat e' s = false).
+  { intros [r c]. apply (van_all j m Hjm (c6_fx e') (c6_fx_supp e') (c6_fx_norm e' He' Hn') (c6_fx_site e') PX HZ' r c). }
+  assert (VZ : forall s, c6_zat e' s = false).
+  { intros [r c]. apply (van_all j m Hjm (c6_fz e') (c6_fz_supp e') (c6_fz_norm e' He' Hn') (c6_fz_site e') PZ HX' r c). }
+  pose proof (c6_components_zero e' He' VX VZ) as E0. unfold e' in E0.
+  assert (E : e = T).
+  { rewrite <- (xorv_cancel_l e T) by lia. rewrite E0. rewrite <- He. symmetry. apply xorv_zeros_r. }
+  rewrite E. exact HT.
+Qed.
+End ColorDist.
+
+(* ================================================================== *)
+(** * Part 4 — the distance                                            *)
+(* ================================================================== *)
+(* the weight Wt of Part 1 as a sum over an explicit duplicate-free list of lattice sites *)
+Definition lsum (f : Z -> Z -> bool) (L : list ridx) : Z := fold_right (fun s acc => B (f (fst s) (snd s)) + acc) 0 L.
+Lemma lsum_app f L1 L2 : lsum f (L1 ++ L2) = lsum f L1 + lsum f L2.
+Proof. unfold lsum. induction L1 as [|a L IH]; cbn [app fold_right]; [lia|]. rewrite IH. lia. Qed.
+Lemma lsum_filter_length f L : lsum f L = Z.of_nat (length (filter (fun s => f (fst s) (snd s)) L)).
+Proof.
+  induction L as [|a L IH]; [reflexivity|]. cbn [lsum fold_right filter]. fold (lsum f L). rewrite IH.
+  destruct (f (fst a) (snd a)); cbn [B length]; lia.
+Qed.
+Definition cellrow (R o1 o2 : Z) (n : nat) : list ridx :=
+  flat_map (fun k => [(R, 3 * Z.of_nat k + o1); (R, 3 * Z.of_nat k + o2)]) (seq 0 n).
+Lemma cellrow_S R o1 o2 n :
+  cellrow R o1 o2 (S n) = cellrow R o1 o2 n ++ [(R, 3 * Z.of_nat n + o1); (R, 3 * Z.of_nat n + o2)].
+Proof. unfold cellrow. rewrite seq_S, flat_map_app. cbn [flat_map Nat.add]. now rewrite app_nil_r. Qed.
+Lemma in_cellrow R o1 o2 n s : In s (cellrow R o1 o2 n) ->
+  fst s = R /\ exists k : nat, (k < n)%nat /\ (snd s = 3 * Z.of_nat k + o1 \/ snd s = 3 * Z.of_nat k + o2).
+Proof.
+  unfold cellrow. intros H. apply in_flat_map in H. destruct H as (k & Hk & Hs). apply in_seq in Hk.
+  destruct Hs as [<-|[<-|[]]]; cbn [fst snd]; (split; [reflexivity|]); exists k; split; auto; lia.
+Qed.
+Lemma row2_lsum f R o1 o2 n : row2 f R o1 o2 n = lsum f (cellrow R o1 o2 n).
+Proof.
+  induction n as [|n IH]; [reflexivity|]. rewrite cellrow_S, lsum_app, <- IH. unfold row2. cbn [zsum lsum fold_right fst snd]. lia.
+Qed.
+Lemma cellrow_NoDup R o1 o2 n : 0 <= o1 < 3 -> 0 <= o2 < 3 -> o1 <> o2 -> NoDup (cellrow R o1 o2 n).
+Proof.
+  intros H1 H2 Hne. induction n as [|n IH]; [constructor|]. rewrite cellrow_S. apply c6_NoDup_app; auto.
+  - constructor; [|constructor; [intros []|constructor]]. intros [E|[]]. injection E as E. lia.
+  - intros s Hs Hs'. apply in_cellrow in Hs. destruct Hs as (_ & k & Hk & Hs).
+    destruct Hs' as [<-|[<-|[]]]; cbn [snd] in Hs; lia.
+Qed.
+
+Definition lE (j : nat) : list ridx := let J := Z.of_nat j in cellrow (3 * J) 0 1 j ++ [(3 * J, 3 * J)].
+Definition lB (j : nat) : list ridx := let J := Z.of_nat j in cellrow (3 * J + 1) 0 2 j ++ [(3 * J + 1, 3 * J)].
+Definition lC (j : nat) : list ridx :=
+  let J := Z.of_nat j in cellrow (3 * J + 2) 1 2 j ++ [(3 * J + 2, 3 * J + 1); (3 * J + 2, 3 * J + 2)].
+Fixpoint c6_tlow (j : nat) : list ridx := match j with O => [] | S i => c6_tlow i ++ lE i ++ lB i ++ lC i end.
+Definition c6_tl (j : nat) : list ridx := c6_tlow j ++ lE j.
+
+Lemma Wlow_lsum f j : Wlow j f = lsum f (c6_tlow j).
+Proof.
+  induction j as [|j IH]; [reflexivity|]. cbn [Wlow c6_tlow]. rewrite !lsum_app, <- IH.
+  unfold rowE, rowB, rowC, lE, lB, lC. cbv zeta. rewrite !lsum_app, <- !row2_lsum. cbn [lsum fold_right fst snd]. lia.
+Qed.
+Lemma Wt_lsum f j : Wt j f = lsum f (c6_tl j).
+Proof.
+  unfold Wt, c6_tl. rewrite lsum_app, <- Wlow_lsum. unfold rowE, lE. cbv zeta. rewrite lsum_app, <- row2_lsum.
+  cbn [lsum fold_right fst snd]. lia.
+Qed.
+
+Definition tsite (J : Z) (s : ridx) : Prop := 0 <= snd s <= fst s /\ fst s <= 3 * J /\ (fst s + snd s) mod 3 <> 2.
+Lemma lE_props j s : In s (lE j) -> fst s = 3 * Z.of_nat j /\ tsite (Z.of_nat j) s.
+Proof.
+  unfold lE, tsite. cbv zeta. intros H. apply in_app_iff in H. destruct H as [H|[<-|[]]]; [|cbn [fst snd]; lia].
+  apply in_cellrow in H. destruct H as (H1 & k & Hk & H2). lia.
+Qed.
+Lemma lB_props j s : In s (lB j) -> fst s = 3 * Z.of_nat j + 1 /\ tsite (Z.of_nat j + 1) s.
+Proof.
+  unfold lB, tsite. cbv zeta. intros H. apply in_app_iff in H. destruct H as [H|[<-|[]]]; [|cbn [fst snd]; lia].
+  apply in_cellrow in H. destruct H as (H1 & k & Hk & H2). lia.
+Qed.
+Lemma lC_props j s : In s (lC j) -> fst s = 3 * Z.of_nat j + 2 /\ tsite (Z.of_nat j + 1) s.
+Proof.
+  unfold lC, tsite. cbv zeta. intros H. apply in_app_iff in H. destruct H as [H|[<-|[<-|[]]]]; [|cbn [fst snd]; lia..].
+  apply in_cellrow in H. destruct H as (H1 & k & Hk & H2). lia.
+Qed.
+Lemma tsite_mono J J' s : J <= J' -> tsite J s -> tsite J' s.
+Proof. unfold tsite. lia. Qed.
+Lemma tlow_props j s : In s (c6_tlow j) -> fst s < 3 * Z.of_nat j /\ tsite (Z.of_nat j) s.
+Proof.
+  induction j as [|j IH]; [intros []|]. cbn [c6_tlow]. intros H. rewrite !in_app_iff in H.
+  destruct H as [H|[H|[H|H]]].
+  - destruct (IH H) as [H1 H2]. split; [lia|]. apply (tsite_mono (Z.of_nat j)); [lia|exact H2].
+  - destruct (lE_props j s H) as [H1 H2]. split; [lia|]. apply (tsite_mono (Z.of_nat j)); [lia|exact H2].
+  - destruct (lB_props j s H) as [H1 H2]. split; [lia|]. apply (tsite_mono (Z.of_nat j + 1)); [lia|exact H2].
+  - destruct (lC_props j s H) as [H1 H2]. split; [lia|]. apply (tsite_mono (Z.of_nat j + 1)); [lia|exact H2].
+Qed.
+Lemma tl_props j s : In s (c6_tl j) -> tsite (Z.of_nat j) s.
+Proof.
+  unfold c6_tl. intros H. apply in_app_iff in H. destruct H as [H|H]; [apply (tlow_props j s H)|apply (lE_props j s H)].
+Qed.
+Lemma lE_NoDup j : NoDup (lE j).
+Proof.
+  unfold lE. cbv zeta. apply c6_NoDup_app; [apply cellrow_NoDup; lia|constructor; [intros []|constructor]|].
+  intros s Hs [<-|[]]. apply in_cellrow in Hs. cbn [fst snd] in Hs. destruct Hs as (_ & k & Hk & Hs). lia.
+Qed.
+Lemma lB_NoDup j : NoDup (lB j).
+Proof.
+  unfold lB. cbv zeta. apply c6_NoDup_app; [apply cellrow_NoDup; lia|constructor; [intros []|constructor]|].
+  intros s Hs [<-|[]]. apply in_cellrow in Hs. cbn [fst snd] in Hs. destruct Hs as (_ & k & Hk & Hs). lia.
+Qed.
+Lemma lC_NoDup j : NoDup (lC j).
+Proof.
+  unfold lC. cbv zeta. rewrite <- cellrow_S. apply cellrow_NoDup; lia.
+Qed.
+Lemma tlow_NoDup j : NoDup (c6_tlow j).
+Proof.
+  induction j as [|j IH]; [constructor|]. cbn [c6_tlow]. apply c6_NoDup_app; [exact IH| |].
+  - apply c6_NoDup_app; [apply lE_NoDup| |].
+    + apply c6_NoDup_app; [apply lB_NoDup|apply lC_NoDup|].
+      intros s H1 H2. apply lB_props in H1. apply lC_props in H2. lia.
+    + intros s H1 H2. apply lE_props in H1. apply in_app_iff in H2. destruct H2 as [H2|H2];
+        [apply lB_props in H2|apply lC_props in H2]; lia.
+  - intros s H1 H2. apply tlow_props in H1. rewrite !in_app_iff in H2. destruct H2 as [H2|[H2|H2]];
+      [apply lE_props in H2|apply lB_props in H2|apply lC_props in H2]; lia.
+Qed.
+Lemma tl_NoDup j : NoDup (c6_tl j).
+Proof.
+  unfold c6_tl. apply c6_NoDup_app; [apply tlow_NoDup|apply lE_NoDup|].
+  intros s H1 H2. apply tlow_props in H1. apply lE_props in H2. lia.
+Qed.
+
+Section ColorDistFinal.
+Variables size m : Z.
+Hypothesis Hm : 1 <= m.
+Hypothesis Hsize : size = 2 * m + 1.
+Notation inb := (color_is_in_bounds size).
+Notation CN := (c6_n size).
+Notation STABS := (stabs (color_code size)).
+Let j := Z.to_nat m.
+
+(* the number of lattice sites carrying a component is at most the number of true bits *)
+Lemma c6_Wt_le_count (u : bsf) :
+  Wt j (fun r c => inb (r, c) && color_is_site (r, c) && nth (c6_fl (r, c)) u false) <= Z.of_nat (count_true u).
+Proof.
+  rewrite Wt_lsum, lsum_filter_length.
+  set (g := fun s : ridx => inb (fst s, snd s) && color_is_site (fst s, snd s) && nth (c6_fl (fst s, snd s)) u false).
+  change (Z.of_nat (length (filter g (c6_tl j))) <= Z.of_nat (count_true u)).
+  assert (G : forall s, In s (filter g (c6_tl j)) -> inb s = true /\ color_is_site s = true /\ nth (c6_fl s) u false = true).
+  { intros [r c] Hs. apply filter_In in Hs. destruct Hs as [_ Hs]. unfold g in Hs. cbn [fst snd] in Hs.
+    apply andb_true_iff in Hs. destruct Hs as [Hs H3]. apply andb_true_iff in Hs. tauto. }
+  apply inj_le. rewrite <- (map_length c6_fl). apply count_true_positions.
+  - apply rc_NoDup_map_inj; [|apply NoDup_filter, tl_NoDup]. intros x y Hx Hy.
+    destruct (G x Hx) as (A1 & A2 & _), (G y Hy) as (B1 & B2 & _). now apply (c6_fl_inj size m Hm Hsize).
+  - intros k Hk. apply in_map_iff in Hk. destruct Hk as (s & <- & Hs). now apply G.
+Qed.
+
+(* C08, lower bound: every non-trivial logical operator has weight at least size *)
+Theorem color_distance_lower_sec v : nontrivial CN STABS v -> size <= Z.of_nat (bsf_wt v).
+Proof.
+  intros (Hl & Hn & Hs). assert (He : length v = (CN + CN)%nat) by lia.
+  destruct (parts_weight CN v Hl) as (_ & _ & Lx & Lz).
+  assert (Hjm : Z.of_nat j = m) by (unfold j; lia).
+  destruct (bsp v (c6_bop size m pZ)) eqn:EZ.
+  - rewrite (c6_bsp_bopZ size m Hm Hsize) in EZ by exact He. fold j in EZ.
+    pose proof (tri_lower j (c6_fx size v)) as H. rewrite Hjm in H.
+    specialize (H (c6_fx_supp size m Hsize v) (c6_fx_norm size m Hm Hsize v He Hn) EZ).
+    pose proof (c6_Wt_le_count (firstn CN v)) as HW. unfold c6_fx, c6_xat in H. lia.
+  - destruct (bsp v (c6_bop size m pX)) eqn:EX.
+    + rewrite (c6_bsp_bopX size m Hm Hsize) in EX by exact He. fold j in EX.
+      pose proof (tri_lower j (c6_fz size v)) as H. rewrite Hjm in H.
+      specialize (H (c6_fz_supp size m Hsize v) (c6_fz_norm size m Hm Hsize v He Hn) EX).
+      pose proof (c6_Wt_le_count (skipn CN v)) as HW. unfold c6_fz, c6_zat in H. lia.
+    + exfalso. apply Hs. replace (2 * CN)%nat with (CN + CN)%nat by lia.
+      now apply (color_centralizer_sec size m Hm Hsize).
+Qed.
+Theorem color_is_distance_sec : is_distance CN STABS (Z.to_nat size).
+Proof.
+  split.
+  - destruct (color_distance_upper_sec size m Hm Hsize) as [H1 H2]. exists (c6_lop size pX). split; [exact H1|lia].
+  - intros v Hv. pose proof (color_distance_lower_sec v Hv). lia.
+Qed.
+End ColorDistFinal.
+
+(* ColorBounded.color_distance_statement, now a theorem: d = size is the minimum distance of the colour 6.6.6 code of
+   every odd size >= 3 *)
+Theorem color_distance_all : color_distance_statement.
+Proof.
+  intros size Hs Ho. assert (Hm : 1 <= size / 2) by lia. assert (Hsize : size = 2 * (size / 2) + 1) by lia.
+  rewrite (c6_nkd size (size / 2) Hm Hsize). unfold rc_dist. rewrite Nat2Z.id.
+  apply (color_is_distance_sec size (size / 2) Hm Hsize).
+Qed.
+(* completeness of the generators: what commutes with all of them and has even X / Z parity on the bottom row
+   r = bound is a product of generators *)
+Theorem color_centralizer_all : forall size, 3 <= size -> size mod 2 = 1 -> forall e,
+  length e = (c6_n size + c6_n size)%nat -> normalizer (stabs (color_code size)) e ->
+  bsp e (c6_bop size (size / 2) pZ) = false -> bsp e (c6_bop size (size / 2) pX) = false ->
+  in_spanP (c6_n size + c6_n size) (stabs (color_code size)) e.
+Proof. intros size Hs Ho. apply (color_centralizer_sec size (size / 2)); lia. Qed.
+Theorem color_distance_lower_all : forall size, 3 <= size -> size mod 2 = 1 -> forall v,
+  nontrivial (c6_n size) (stabs (color_code size)) v -> size <= Z.of_nat (bsf_wt v).
+Proof. intros size Hs Ho. apply (color_distance_lower_sec size (size / 2)); lia. Qed.
+
+(* non-vacuity: a size beyond the in-kernel enumeration of ColorBounded (sizes 3, 5); the bottom row; the hypotheses
+   of tri_lower are satisfiable (the bottom row of the triangle of side 1, i.e. a weight-3 logical of the 7-qubit code) *)
+Example color_distance_ex_9 : rc_dist (color_n_k_d 9) (color_code 9).
+Proof. apply color_distance_all; [lia|reflexivity]. Qed.
+Example color_bottom_ex : c6_bottom 1 = [(3, 0); (3, 1); (3, 3)] /\ c6_bottom 2 = [(6, 0); (6, 1); (6, 3); (6, 4); (6, 6)].
+Proof. vm_compute. auto. Qed.
+Example tri_lower_ex : let f := fun r c => (r =? 3) && ((c =? 0) || (c =? 1) || (c =? 3)) in
+  oddE 1 f = true /\ Wt 1 f = 3 /\ hexsum f 1 1 = false /\ hexsum f 2 0 = false /\ hexsum f 3 2 = false.
+Proof. vm_compute. auto 10. Qed.
